@@ -140,7 +140,7 @@ pub fn eval_ofint(case: &J) -> Outcome {
 // exercised directly through `injection::From(domain).into(co_domain)`
 
 pub fn gen_base(rng: &mut Rng, k: usize, _tier: &str) -> J {
-    let pair = *rng.pick(&["f2i", "i2f", "b2i", "i2t", "f2t"]);
+    let pair = *rng.pick(&["f2i", "i2f", "b2i", "i2t", "f2t", "f2i", "i2f", "i2b", "b2t", "d2dt", "dt2d", "dt2d", "d2t", "dt2t", "tm2t"]);
     let extremes = k % 2 == 0;
     // finite value sets (the case in which lossy-looking conversions are accepted) and intervals
     let floats: Vec<f64> = (0..1 + rng.below(3)).map(|_| match rng.below(10) {
@@ -149,7 +149,14 @@ pub fn gen_base(rng: &mut Rng, k: usize, _tier: &str) -> J {
         2 | 3 => rng.range(-8, 16) as f64 * 0.5,
         _ => rng.range(-1000, 1000) as f64 }).collect();
     let ints: Vec<i64> = (0..1 + rng.below(3)).map(|_| int_bound(rng, extremes)).collect();
-    json!({"pair": pair, "floats": floats, "ints": ints, "bools": [rng.chance(1, 2), rng.chance(1, 2)]})
+    // dates (days from 1970-01-01), datetimes (day, second of the day, nanosecond): midnight with and without a sub-second part, the
+    // last nanosecond of a day, a leap day; times (second of the day, nanosecond)
+    let days: Vec<i64> = (0..1 + rng.below(3)).map(|_| if rng.chance(1, 5) { *rng.pick(&[0i64, -1, 11016, 18321, 19782]) } else { rng.range(-20000, 30000) }).collect();
+    let stamps: Vec<J> = (0..1 + rng.below(3)).map(|_| { let d = if rng.chance(1, 2) && !days.is_empty() { *rng.pick(&days) } else { rng.range(-20000, 30000) };
+        let (s, n) = match rng.below(6) { 0 | 1 => (0, 0), 2 => (0, *rng.pick(&[1i64, 250_000_000, 999_999_999])), 3 => (86399, 999_999_999), 4 => (rng.range(0, 86399), 0), _ => (rng.range(0, 86399), rng.range(0, 999_999_999)) };
+        json!([d, s, n]) }).collect();
+    let small_ints: Vec<i64> = (0..1 + rng.below(3)).map(|_| rng.range(-1, 2)).collect();
+    json!({"pair": pair, "floats": floats, "ints": ints, "bools": [rng.chance(1, 2), rng.chance(1, 2)], "days": days, "stamps": stamps, "small_ints": small_ints})
 }
 
 pub fn eval_base(case: &J) -> Outcome {
@@ -195,6 +202,25 @@ pub fn eval_base(case: &J) -> Outcome {
                        &|a, b| (**b) as i128 == **a as i128 && b.fract() == 0.0, &|a| if (**a as i128).abs() > (1i128 << 53) { "huge" } else { "-" }),
         "b2i" => drive(&mut out, "Boolean->Integer", data_type::Boolean::from_values(bools.clone()), data_type::Integer::default(), bools.iter().map(|x| v::Boolean::from(*x)).collect(), &|a, b| **b == **a as i64, &|_| "-"),
         "i2t" => drive(&mut out, "Integer->Text", data_type::Integer::from_values(ints.clone()), data_type::Text::default(), ints.iter().map(|x| v::Integer::from(*x)).collect(), &|a, b| b.parse::<i64>().ok() == Some(**a), &|_| "-"),
+        "i2b" => { let xs: Vec<i64> = case["small_ints"].as_array().unwrap().iter().map(|x| x.as_i64().unwrap()).collect();
+                   drive(&mut out, "Integer->Boolean", data_type::Integer::from_values(xs.clone()), data_type::Boolean::default(), xs.iter().map(|x| v::Integer::from(*x)).collect(), &|a, b| (**a == 0 || **a == 1) && **b == (**a == 1), &|_| "-") }
+        "b2t" => drive(&mut out, "Boolean->Text", data_type::Boolean::from_values(bools.clone()), data_type::Text::default(), bools.iter().map(|x| v::Boolean::from(*x)).collect(), &|a, b| b.parse::<bool>().ok() == Some(**a), &|_| "-"),
+        "d2dt" | "d2t" | "dt2d" | "dt2t" | "tm2t" => {
+            use chrono::{NaiveDate, NaiveDateTime, NaiveTime, Timelike};
+            let epoch = NaiveDate::from_ymd_opt(1970, 1, 1).unwrap();
+            let day = |d: i64| epoch + chrono::Duration::days(d);
+            let dates: Vec<NaiveDate> = case["days"].as_array().unwrap().iter().map(|x| day(x.as_i64().unwrap())).collect();
+            let stamps: Vec<NaiveDateTime> = case["stamps"].as_array().unwrap().iter().map(|x| day(x[0].as_i64().unwrap()).and_time(NaiveTime::from_num_seconds_from_midnight_opt(x[1].as_u64().unwrap() as u32, x[2].as_u64().unwrap() as u32).unwrap())).collect();
+            let times: Vec<NaiveTime> = stamps.iter().map(|s| s.time()).collect();
+            let sub = |t: &NaiveDateTime| -> &'static str { if t.time().num_seconds_from_midnight() == 0 && t.time().nanosecond() != 0 { "midnight+fraction" } else if t.time().nanosecond() != 0 { "fraction" } else { "-" } };
+            match pair {
+                "d2dt" => drive(&mut out, "Date->DateTime", data_type::Date::from_values(dates.clone()), data_type::DateTime::default(), dates.iter().map(|x| v::Date::from(*x)).collect(), &|a, b| **b == a.and_hms_opt(0, 0, 0).unwrap(), &|_| "-"),
+                "d2t" => drive(&mut out, "Date->Text", data_type::Date::from_values(dates.clone()), data_type::Text::default(), dates.iter().map(|x| v::Date::from(*x)).collect(), &|a, b| b.parse::<NaiveDate>().ok() == Some(**a), &|_| "-"),
+                "dt2d" => drive(&mut out, "DateTime->Date", data_type::DateTime::from_values(stamps.clone()), data_type::Date::default(), stamps.iter().map(|x| v::DateTime::from(*x)).collect(), &|a, b| b.and_hms_opt(0, 0, 0).unwrap() == **a, &|a| sub(a)),
+                "dt2t" => drive(&mut out, "DateTime->Text", data_type::DateTime::from_values(stamps.clone()), data_type::Text::default(), stamps.iter().map(|x| v::DateTime::from(*x)).collect(), &|a, b| NaiveDateTime::parse_from_str(b, "%Y-%m-%d %H:%M:%S%.f").ok() == Some(**a), &|a| sub(a)),
+                _ => drive(&mut out, "Time->Text", data_type::Time::from_values(times.clone()), data_type::Text::default(), times.iter().map(|x| v::Time::from(*x)).collect(), &|a, b| NaiveTime::parse_from_str(b, "%H:%M:%S%.f").ok() == Some(**a), &|_| "-"),
+            }
+        }
         _ => drive(&mut out, "Float->Text", data_type::Float::from_values(floats.clone()), data_type::Text::default(), floats.iter().map(|x| v::Float::from(*x)).collect(), &|a, b| b.parse::<f64>().ok() == Some(**a), &|a| if **a == 0.0 { "signed-zero" } else { "-" }),
     }
     out
